@@ -6,7 +6,7 @@ import HdVerif.Proofs.SRItemsArgs
 
 Property theorems only.  They are about `Model/SRItems.lean`, whose parsing side runs on the tables and
 guards REGENERATED from `sr/value_types.py` and `sr/enum.py` (`HdVerif.Gen.srRequiredAttrs`, `srDispatch`,
-`srFromDatasetAsserts`, `srCtorValueType`, `srOptionalNameClasses`, `srAssertHead`, `srAssertAttr`,
+`srFromDatasetAsserts`, `srCtorValueType`, `c13OptionalNameClasses`, `srAssertHead`, `srAssertAttr`,
 `srBaseGuards`, `srCheckDatasetRel`, `scoordCheck`, `scoord3dCheck`, the enumerations): a missing table row,
 a wrong asserted value type or a changed count rule breaks these proofs.
 
@@ -123,9 +123,9 @@ theorem unknown_relationship_type_refused_on_parsing (it : Item) (isRoot isSr : 
 
 /-- **Every value type has a class and a required-attribute row** that agree with each other, with the value
 type the class's `from_dataset` asserts and with the one its constructor writes (over the regenerated tables). -/
-theorem dispatch_total : ∀ p ∈ Gen.srValueTypes, ∃ cls req, TableOk cls p.1 p.2 req := by
+theorem dispatch_total : ∀ p ∈ Gen.c13ValueTypes, ∃ cls req, TableOk cls p.1 p.2 req := by
   intro p hp
-  simp only [Gen.srValueTypes, List.mem_cons, List.mem_nil_iff, or_false] at hp
+  simp only [Gen.c13ValueTypes, List.mem_cons, List.mem_nil_iff, or_false] at hp
   rcases hp with rfl | rfl | rfl | rfl | rfl | rfl | rfl | rfl | rfl | rfl | rfl | rfl | rfl | rfl | rfl
   · exact ⟨_, _, tableOk_code⟩
   · exact ⟨_, _, tableOk_composite⟩
@@ -499,8 +499,8 @@ theorem scoord_count_rule (g : String) (n d : Int) :
 
 /-- the constructor refuses whatever the rule refuses (and unknown graphic types / pixel origin interpretations) -/
 theorem scoord_rejects (fl : Rat → Rat) (name : Coded) (gt : String) (p : Points) (o f rel : Option String)
-    (h : p.ndim ≠ 2 ∨ (∀ g, enumName Gen.srGraphicTypes gt = some g → ¬ ((p.d : Int) = 2 ∧ count2Ok g p.rows.length)) ∨
-         (∃ x, o = some x ∧ enumHas Gen.srPixelOrigins x = false)) :
+    (h : p.ndim ≠ 2 ∨ (∀ g, enumName Gen.c13GraphicTypes gt = some g → ¬ ((p.d : Int) = 2 ∧ count2Ok g p.rows.length)) ∨
+         (∃ x, o = some x ∧ enumHas Gen.c13PixelOrigins x = false)) :
     ∀ it, mkScoord fl name gt p o f rel ≠ .ok it := by
   intro it hit
   obtain ⟨g, hg, hn, hc, ho, _⟩ := mkScoord_ok_iff fl name gt p o f rel it hit
@@ -509,7 +509,7 @@ theorem scoord_rejects (fl : Rat → Rat) (name : Coded) (gt : String) (p : Poin
   · exact h g hg ((scoordCheck_iff g _ _).mp hc)
   · rw [ho x hx] at hf; cases hf
 
-theorem scoord_rejects_count (fl : Rat → Rat) (name : Coded) (gt : String) (hgt : enumName Gen.srGraphicTypes gt = some gt)
+theorem scoord_rejects_count (fl : Rat → Rat) (name : Coded) (gt : String) (hgt : enumName Gen.c13GraphicTypes gt = some gt)
     (rows : List (List Rat)) (o f rel : Option String) (hbad : ¬ count2Ok gt rows.length) :
     ∀ it, mkScoord fl name gt ⟨2, rows, 2⟩ o f rel ≠ .ok it := by
   apply scoord_rejects
@@ -540,7 +540,7 @@ theorem scoord3d_rule (g : String) (n d : Int) (closed cop : Bool) :
   ⟨scoord3dCheck_iff g n d closed cop, scoord3dCheck_err g n d closed cop⟩
 
 theorem scoord3d_rejects (fl : Rat → Rat) (name : Coded) (gt : String) (p : Points) (fo : String) (f rel : Option String)
-    (h : ∀ g, enumName Gen.srGraphicTypes3D gt = some g →
+    (h : ∀ g, enumName Gen.c13GraphicTypes3D gt = some g →
       ¬ ((p.d : Int) = 3 ∧ count3Ok g p.rows.length ∧ (g = "POLYGON" → firstEqLast p.rows = true) ∧
          ((g = "POLYGON" ∨ g = "ELLIPSE") → coplanar p.rows = true))) :
     ∀ it, mkScoord3d fl name gt p fo f rel ≠ .ok it := by
@@ -553,7 +553,7 @@ theorem open_polygon_rejected (fl : Rat → Rat) (name : Coded) (rows : List (Li
     (hopen : firstEqLast rows = false) : ∀ it, mkScoord3d fl name "POLYGON" ⟨3, rows, 2⟩ fo f rel ≠ .ok it := by
   apply scoord3d_rejects
   intro g hg
-  have hg' : some "POLYGON" = some g := (by decide : enumName Gen.srGraphicTypes3D "POLYGON" = some "POLYGON").symm.trans hg
+  have hg' : some "POLYGON" = some g := (by decide : enumName Gen.c13GraphicTypes3D "POLYGON" = some "POLYGON").symm.trans hg
   cases hg'
   intro hh
   have := hh.2.2.1 rfl
@@ -577,8 +577,8 @@ theorem noncoplanar_rejected (fl : Rat → Rat) (name : Coded) (gt : String) (hg
   intro hh
   have hg2 : g = gt := by
     rcases hgt with rfl | rfl
-    · exact (Option.some.inj ((by decide : enumName Gen.srGraphicTypes3D "POLYGON" = some "POLYGON").symm.trans hg)).symm
-    · exact (Option.some.inj ((by decide : enumName Gen.srGraphicTypes3D "ELLIPSE" = some "ELLIPSE").symm.trans hg)).symm
+    · exact (Option.some.inj ((by decide : enumName Gen.c13GraphicTypes3D "POLYGON" = some "POLYGON").symm.trans hg)).symm
+    · exact (Option.some.inj ((by decide : enumName Gen.c13GraphicTypes3D "ELLIPSE" = some "ELLIPSE").symm.trans hg)).symm
   have := hh.2.2.2 (by rw [hg2]; exact hgt)
   simp only at this
   rw [hcop] at this
@@ -591,7 +591,7 @@ theorem few_points_coplanar (rows : List (List Rat)) (h : rows.length < 4) : cop
 (the 12 that only call `ContentItem.__init__` — any `withAttrs cls` with consistent table rows, instantiated for each —
 and SCOORD, SCOORD3D, TCOORD); a temporal range type outside its enumeration and a TCOORD without time points -/
 theorem enumerations_enforced (ds fl : Rat → Rat) (name : Coded) (rel : Option String) (r : String) (hr : rel = some r)
-    (hbad : enumHas Gen.srRelationshipTypes r = false) :
+    (hbad : enumHas Gen.c13RelationshipTypes r = false) :
     (∀ {cls vtName vt req}, TableOk cls vtName vt req → ∀ extra it, withAttrs cls name rel extra ≠ .ok it) ∧
     (∀ v it, mkCode name v rel ≠ .ok it) ∧ (∀ v it, mkText name v rel ≠ .ok it) ∧ (∀ v it, mkPname name v rel ≠ .ok it) ∧
     (∀ v it, mkDate name v rel ≠ .ok it) ∧ (∀ v it, mkTime name v rel ≠ .ok it) ∧ (∀ v it, mkDateTime name v rel ≠ .ok it) ∧
@@ -625,7 +625,7 @@ theorem enumerations_enforced (ds fl : Rat → Rat) (name : Coded) (rel : Option
     exact hb tableOk_tcoord a ha
 
 theorem tcoord_enumeration_and_time_points (ds : Rat → Rat) (name : Coded) (rt : String) (arg : Option TArg) (rel : Option String)
-    (h : enumHas Gen.srTemporalRangeTypes rt = false ∨ arg = none) : ∀ it, mkTcoord ds name rt arg rel ≠ .ok it := by
+    (h : enumHas Gen.c13TemporalRangeTypes rt = false ∨ arg = none) : ∀ it, mkTcoord ds name rt arg rel ≠ .ok it := by
   intro it hit
   obtain ⟨hr, t, ht, _⟩ := mkTcoord_ok_iff ds name rt arg rel it hit
   rcases h with h | h
@@ -637,7 +637,7 @@ outside the enumeration) **nor parsed** (`from_sequence`), at ANY position of th
 children that parse, the list is refused at the offending one -/
 theorem child_without_relationship_rejected (it : Item) (cs : List Item) (pre : List DS) (ps : List Item) (d : DS) (r : List DS)
     (vt : String) (hpre : parseList pre = .ok ps)
-    (hvt : d.attrs.lookup "ValueType" = some (.str vt)) (hk : enumHas Gen.srValueTypes vt = true)
+    (hvt : d.attrs.lookup "ValueType" = some (.str vt)) (hk : enumHas Gen.c13ValueTypes vt = true)
     (hr : has "RelationshipType" d.attrs = false) :
     ((∃ c ∈ cs, has "RelationshipType" c.attrs = false ∨ relValid c.attrs = false) → ∀ it', setContent it cs ≠ .ok it') ∧
     parseList (pre ++ d :: r) = .error .attribute ∧
@@ -675,7 +675,7 @@ theorem scoord3d_count_boundaries (fl : Rat → Rat) (name : Coded) (rows : List
     (rows.length ≤ 1 → ∀ it, mkScoord3d fl name "MULTIPOINT" ⟨3, rows, 2⟩ fo f rel ≠ .ok it) ∧
     (rows.length ≤ 1 → ∀ it, mkScoord3d fl name "POLYLINE" ⟨3, rows, 2⟩ fo f rel ≠ .ok it) ∧
     (rows.length ≤ 1 → ∀ it, mkScoord3d fl name "POLYGON" ⟨3, rows, 2⟩ fo f rel ≠ .ok it) := by
-  have key : ∀ gt, enumName Gen.srGraphicTypes3D gt = some gt → ¬ count3Ok gt rows.length →
+  have key : ∀ gt, enumName Gen.c13GraphicTypes3D gt = some gt → ¬ count3Ok gt rows.length →
       ∀ it, mkScoord3d fl name gt ⟨3, rows, 2⟩ fo f rel ≠ .ok it := by
     intro gt hgt hbad
     apply scoord3d_rejects
@@ -709,7 +709,7 @@ theorem missing_value_type_rejected {cls : Cls} {vtName vt : String} {req : List
     (attrs : Attrs) (content : Option (List DS)) :
     (attrs.lookup "ValueType" = none →
       parse (.mk attrs content) = .error .attribute ∧ parseAs cls (.mk attrs content) = .error .attribute) ∧
-    (∀ v, attrs.lookup "ValueType" = some (.str v) → enumName Gen.srValueTypes v = none →
+    (∀ v, attrs.lookup "ValueType" = some (.str v) → enumName Gen.c13ValueTypes v = none →
       parse (.mk attrs content) = .error .value ∧ parseAs cls (.mk attrs content) = .error .value) := by
   constructor
   · intro h
@@ -733,7 +733,7 @@ theorem mismatching_value_type_rejected {cls : Cls} {vtName vt : String} {req : 
 theorem missing_name_rejected {cls : Cls} {vtName vt : String} {req : List String} (T : TableOk cls vtName vt req)
     (attrs : Attrs) (content : Option (List DS)) (hvt : attrs.lookup "ValueType" = some (.str vt))
     (hreq : ∀ k ∈ req, has k attrs = true) (hn : has "ConceptNameCodeSequence" attrs = false)
-    (hopt : Gen.srOptionalNameClasses.contains cls.pyName = false) :
+    (hopt : Gen.c13OptionalNameClasses.contains cls.pyName = false) :
     parseAs cls (.mk attrs content) = .error .attribute :=
   parseAs_of_classifyAs_err cls attrs content _ (classifyAs_noName T attrs hvt hreq hn hopt)
 
@@ -741,7 +741,7 @@ theorem missing_name_rejected {cls : Cls} {vtName vt : String} {req : List Strin
 not in the regenerated list of optional-name classes, so `missing_name_rejected` applies to them -/
 theorem name_mandatory_classes :
     ∀ c ∈ [Cls.text, .num, .code, .datetime, .date, .time, .uidref, .pname, .container],
-      Gen.srOptionalNameClasses.contains c.pyName = false := by decide
+      Gen.c13OptionalNameClasses.contains c.pyName = false := by decide
 
 /-! ## Bridges: hand-written accessors/constructors use the expressions of the current source (`Generated/T13v.lean`) -/
 
@@ -791,7 +791,7 @@ All about the tables REGENERATED from `sr/value_types.py` / `sr/enum.py` (T13s, 
 `python_types`; two value types never share a class; the table has the 15 value types as keys and the 15 classes as
 values, each once. -/
 theorem dispatch_bijective :
-    (∀ p ∈ Gen.srValueTypes, ∃ c : Cls, Gen.srDispatch.lookup p.1 = some c.pyName ∧
+    (∀ p ∈ Gen.c13ValueTypes, ∃ c : Cls, Gen.srDispatch.lookup p.1 = some c.pyName ∧
       ∀ c' : Cls, Gen.srDispatch.lookup p.1 = some c'.pyName → c' = c) ∧
     (∀ vt1 vt2 c, Gen.srDispatch.lookup vt1 = some c → Gen.srDispatch.lookup vt2 = some c → vt1 = vt2) ∧
     (∀ c : Cls, ∃ vtName, Gen.srDispatch.lookup vtName = some c.pyName) ∧
